@@ -1,7 +1,9 @@
 import AndaVerif.Model.ConcColl
 namespace AndaVerif.ConcColl
 
-def Thread.isAdd (th : Thread) : Bool := match th.op with | .add _ => true | _ => false
+def Thread.isMut (th : Thread) : Bool :=
+  match th.op with | .add _ => true | .upd _ _ _ _ => true | .rm _ => true | .ext _ _ => true | _ => false
+def Thread.isFlush (th : Thread) : Bool := match th.op with | .flush => true | _ => false
 
 /-- Case analysis of one thread action: one goal per leaf of `stepThread`, with the successor
 state substituted. -/
@@ -15,15 +17,19 @@ macro "step_cases" h:ident : tactic => `(tactic| (
   all_goals try (simp only [Option.some.injEq, Prod.mk.injEq, reduceCtorEq] at $h:ident)
   all_goals try (rcases $h:ident with ⟨h1, h2⟩; subst h1; subst h2)))
 
-theorem stepThread_op (sh : Shared) (t : Nat) (th : Thread) (sh' : Shared) (th' : Thread)
-    (h : stepThread sh t th = some (sh', th')) : th'.op = th.op := by
+theorem stepThread_gate (sh : Shared) (t : Nat) (th : Thread) (sh' : Shared) (th' : Thread)
+    (h : stepThread sh t th = some (sh', th')) :
+    th'.op = th.op ∧ th.pc ≠ .done ∧ th'.pc ≠ .idle ∧
+    (th.isMut = true →
+      sh'.writer = sh.writer ∧ (th.pc = .idle → sh.writer = none) ∧
+      sh'.readers = (if th'.pc = .done then List.filter (· != t) else id)
+        ((if th.pc = .idle then (t :: ·) else id) sh.readers)) ∧
+    (th.isFlush = true →
+      sh'.readers = sh.readers ∧ (th.pc = .idle → sh.writer = none ∧ sh.readers = []) ∧
+      sh'.writer = (if th'.pc = .done then none else if th.pc = .idle then some t else sh.writer)) ∧
+    (th.isMut = false → th.isFlush = false → sh'.readers = sh.readers ∧ sh'.writer = sh.writer) := by
   step_cases h
-  all_goals simp_all [fin]
-
-theorem stepThread_maxId (sh : Shared) (t : Nat) (th : Thread) (sh' : Shared) (th' : Thread)
-    (h : stepThread sh t th = some (sh', th')) : sh.maxId ≤ sh'.maxId := by
-  step_cases h
-  all_goals simp [enter, leave, fin, unlockGate, unlockDoc, lockDoc, rmBitmap, rmIndexes, addRollback, updRollback]
+  all_goals simp_all [Thread.isMut, Thread.isFlush, enter, leave, fin, unlockGate, unlockDoc, lockDoc, rmBitmap, rmIndexes, addRollback, updRollback]
   all_goals trace_state; sorry
 
 end AndaVerif.ConcColl
